@@ -489,7 +489,7 @@ EXPLANATION = ("The real ASTListener methods are executed symbolically on modell
                "A bounded replay generates class texts, parses them with the real parser and compares the tree with the generator's description.")
 MANIFEST = {
     "category": "proof",
-    "text": "The real methods of pymoca.parser.ASTListener are executed symbolically on modelled ANTLR contexts in the order ParseTreeWalker calls them. Component clauses (both variants; 1-3 declarators; six type-prefix keyword lists; clause/declarator subscripts; four modification shapes): every declarator appears exactly once in class.symbols under its name, in order with consecutive order numbers, with one prefix per keyword, the clause's type, its own subscripts followed by the type's, its comment, its class modification followed by the binding as a `value` argument, and without sharing prefix/dimension/type objects with sibling declarators; a name declared twice (in an earlier clause or the same one) is rejected and the first declaration is untouched. Composition: for every sequence of up to four public/protected/equation/initial equation/algorithm/initial algorithm sections, every element gets the visibility of its own section, equations and statements land in source order in the initial or non-initial list, the annotation is attached. Nested class definitions and extends clauses are attached to the class that declares them. A bounded replay parses generated class texts with the real parser and compares symbols (name, type, prefixes, dimensions, visibility, order, comment, modifications), sections, nested classes, extends and imports with the generator's description.",
+    "text": "The real methods of pymoca.parser.ASTListener are executed symbolically on modelled ANTLR contexts in the order ParseTreeWalker calls them. Component clauses (both variants; 1-3 declarators; six type-prefix keyword lists; clause/declarator subscripts; four modification shapes): every declarator appears exactly once in class.symbols under its name, in order with consecutive order numbers, with one prefix per keyword, the clause's type, its own subscripts followed by the type's, its comment, its class modification followed by the binding as a `value` argument, and without sharing prefix/dimension/type objects with sibling declarators; a name declared twice (in an earlier clause or the same one) is rejected and the first declaration is untouched. Composition: for every sequence of up to four public/protected/equation/initial equation/algorithm/initial algorithm sections, every element gets the visibility of its own section, equations and statements land in source order in the initial or non-initial list, the annotation is attached. Nested class definitions and extends clauses are attached to the class that declares them. A bounded replay parses generated class texts with the real parser and compares symbols (name, type, prefixes, dimensions, visibility, order, comment, modifications), sections, nested classes, extends and imports with the generator's description. String comments: exitString_comment / exitComment keep the text between the outer quotes character for character (symbolic STRING tokens with escaped quotes).",
     "note": "ANTLR, the grammar and the walker's call order are trusted (emulated); two genuine defects were repaired (fix: 66fe728 glued type-prefix keywords, 7e457f3 visibility of repeated sections).",
     "technique": "contract-based deductive verification: symbolic execution of the real listener methods on modelled parse-tree contexts with postconditions over the class node; bounded replay through the real parser",
 }
